@@ -67,7 +67,7 @@ func Run(c *vrun.Ctx) error {
 		"Base58Check form: version byte class x payload length x checksum x default network; hex key form), concrete address strings computed by the specification's own BIP173 arithmetic for every prefix x version 0..16 x program length x pattern, base-58 strings computed by the specification's digit arithmetic, " +
 		"address kind x network (9 parameter sets: the six of chaincfg and three made by the binder) with template / class / extraction, template mutations and the witness program grid, spending-data forms, the WIF and serialised extended key tables, " +
 		"BIP32 operation sequences (<= 3 derivations over {normal, hardened} x {0, 2^31-1} (thorough: also 1) with Neuter at every position, private and public roots, roots at depth 252..255) and the documented BIP32 vectors, " +
-		"taproot leaf lists (every partition into equal scripts up to 4 (thorough 6) leaves, distinct up to 6 (8)) x leaf version patterns with the assembler's tree, all binary tree shapes up to 5 (6) leaves, 9 control block mutations per leaf, and edit classes (1..4 edits x 6 types x region) on valid addresses. " +
+		"taproot leaf lists (every partition into equal scripts up to 4 (thorough 6) leaves, distinct up to 6 (10)) x leaf version patterns with the assembler's tree, all binary tree shapes up to 5 (7) leaves, 9 control block mutations per leaf, and edit classes (1..4 edits x 6 types x region) on valid addresses. " +
 		"Every case is replayed into the real packages; every string offered to a decoder is abstracted by the binder and the answer looked up in the TLC-produced table. distinct_nontrivial counts distinct abstract cases."
 	c.Assume("TLC evaluates the specification's operators correctly; its BIP173 arithmetic reproduces the BIP173/BIP350 test vectors and its base-58 arithmetic the documented examples (checked inside TLC, DocLaws)")
 	c.Assume("SHA-256, RIPEMD-160, HMAC-SHA512 and secp256k1 group arithmetic are not specified in TLA+: Base58Check checksums are an abstract attribute (the binder computes them with crypto/sha256), BIP32 child keys are compared between operation orders and against the documented BIP32 vectors, taproot tweaks are recomputed with the curve primitives")
@@ -92,12 +92,25 @@ func Run(c *vrun.Ctx) error {
 		}
 	}
 	res, err := tlc.Run(tlc.Opts{SpecDir: c.SpecDir("addr"), Module: "AddrCases", Config: cfg, Workers: workers,
-		Timeout: 40 * time.Minute, Scratch: c.Scratch, HeapGB: 8})
+		Timeout: 40 * time.Minute, Scratch: c.Scratch, HeapGB: 8, Coverage: c.Thorough})
 	if err != nil {
 		return err
 	}
 	if !res.OK {
 		return fmt.Errorf("AddrCases.tla: TLC reports %s %s on the specification itself (not a verdict about btcd)", res.ErrKind, res.ErrName)
+	}
+	if c.Thorough {
+		// vacuity audit on TLC's own coverage report
+		var never []string
+		for a := range actionKinds {
+			if res.ActionCount[a] == 0 {
+				never = append(never, a)
+			}
+		}
+		sort.Strings(never)
+		if len(never) > 0 {
+			return fmt.Errorf("AddrCases.tla: TLC's coverage report has no state for the actions %v", never)
+		}
 	}
 	c.Logf("AddrCases.tla: %d distinct states, %d generated, %.1fs", res.Distinct, res.Generated, res.WallS)
 	c.AddModel(res.Distinct, res.Generated)
